@@ -155,6 +155,17 @@ def run(chk):
         if rnd.random() < 0.3:
             kw['tag'] = True
         family.append(rr.run_record(rnd, 100000 + nrich + j, examples=exs, kw=kw, sizekw=sizekw))
+    # a varying punctuation character with more distinct values than Size.max_punc_in_group (the general punctuation class is
+    # rendered), the awkward ones among them: backslash, caret, brackets, hyphen
+    for j in range(120 if thorough else 24):
+        low = _string.ascii_lowercase
+        ps = rnd.sample('!#$%&*+=;:@~|/?<>', rnd.randint(4, 7)) + rnd.sample(['\\', '^', ']', '[', '-'], rnd.randint(2, 3))
+        exs = ['%s%s%s' % (rnd.choice(low), p_, rnd.choice(low) * rnd.randint(1, 2)) for p_ in ps]
+        rnd.shuffle(exs)
+        kw = {'dialect': rx.DIALECTS[j % 3]}
+        if rnd.random() < 0.3:
+            kw['extra_letters'] = rnd.choice(['_', '.', '_.'])
+        family.append(rr.run_record(rnd, 200000 + j, examples=exs, kw=kw, sizekw=None))
     finals, rejected = rr.validate_loops(chk, recs)
     for rec in family:
         chk.coverage['replayed_cases'] += 1
